@@ -1,12 +1,41 @@
-"""C08 (pooled-client part; work in progress)."""
+"""C08 - pooled connections are never shared between threads.
+
+This family does not explore interleavings. What is proved is the classical monitor argument, every step of which
+is a sequential obligation generated from the real source:
+  1. wf(pool) (see C09) is re-established by every critical section of get / release / destroy / clear on every exit,
+     normal or raising, when run atomically from a state satisfying wf;
+  2. lock discipline: every access to _used_objs / _free_objs in those methods happens while the ghost 'lock held'
+     flag is set (one obligation per access), the lock is released on every exit path, never re-acquired while held;
+  3. exclusive ownership: get() returns an object only by appending it to used, it was not in used before, and every
+     append carries a no-duplicate obligation ("nor lists one twice");
+  4. the size check and the creation of a new object happen in the same critical section (|used|+|free| <= max_size);
+  5. after_remove (closing a connection) is called outside the lock in destroy and clear; the creator and after_remove
+     touch no pool state (ghost functions), so no second lock and no re-entry: no deadlock by lock ordering;
+  6. no escape: in every PooledClient method the checked-out client is neither stored nor returned;
+  7. quiescence: every bracket gives its object back to free or removes it (C09), clear closes each object exactly once.
+Assumption (the only non-deductive step): the object returned by lock_generator() / threading.Lock() provides mutual
+exclusion, so critical sections are atomic with respect to each other (Owicki-Gries / monitor rule).
+"""
 from . import poolmodel as pm
 
-TRUSTED = []
-ASSUMPTIONS = []
+TRUSTED = ["mutual exclusion of the lock (monitor rule)", "A-deque", "contextlib.contextmanager single-yield semantics"]
+ASSUMPTIONS = ["critical sections are atomic with respect to each other because they run under the same mutex",
+               "obj_creator and after_remove do not touch the pool (PooledClient._create_client / Client.close)"]
+NOT_COVERED = ["the statement's literal quantifier 'all interleavings at bytecode granularity' - nothing is enumerated",
+               "the read-only `used` / `free` properties (unlocked snapshots outside the statement)", "liveness / absence of blocking"]
 BUDGET = {"quick": 30, "thorough": 120}
-FILTER_BY_PROPERTY = True
 REPLAY_UNDECIDED = True
 
 
 def build(E, tier):
+    pm.verify_pool_get(E, "C08")
+    pm.verify_pool_release_destroy(E, "C08")
+    pm.verify_pool_clear(E, "C08")
+    n0 = len(E.obligations)
     pm.verify_pooled_client(E)
+    # of the pooled-client model only the no-escape clause belongs here
+    E.obligations[n0:] = [o for o in E.obligations[n0:] if o.id.startswith("C08/")]
+
+
+def replay(ob, res):
+    return pm.pool_replay(ob, res)
